@@ -759,10 +759,18 @@ def real_inst_order(parser):
         return {"cycle": [m.group(1), m.group(2)]} if m else {"other": str(ex)[:80]}
 
 
+class _StubLink:
+    """hashable stand-in for an ActionLink (get_link_actions tests `a not in skip`)"""
+
+    def __init__(self, sources, target):
+        self.apply_on = "instantiate"
+        self.target = (target, None)
+        self.source = [(s, types.SimpleNamespace(dest=s)) for s in sources]
+
+
 def fake_parser(links):
     """the only things instantiation_order reads from a parser: _links_group._group_actions[*].apply_on/.target/.source"""
-    acts = [types.SimpleNamespace(apply_on="instantiate", target=(l["target"], None),
-                                  source=[(s, types.SimpleNamespace(dest=s)) for s in l["sources"]]) for l in links]
+    acts = [_StubLink(l["sources"], l["target"]) for l in links]
     return types.SimpleNamespace(_links_group=types.SimpleNamespace(_group_actions=acts))
 
 
